@@ -434,10 +434,12 @@ class C14(Prop):
 
     def cases(self, rng, tier, escalate=False):
         deep = tier == "thorough" or escalate or bool(self.regex_changed())
-        # hand-picked seeds (DESIGN §7 candidates and the non-vacuity examples of the Props file)
+        # hand-picked seeds (DESIGN §7 candidates — two of them repaired since — and the non-vacuity
+        # examples of the Props file)
         seeds = ["http://h:80\n", "http://:", "http://a@b@c\\d/", "http://[fe80::1%25eth0]:080/a/../b?x#y",
                  "http://[::1%2525a]", "a.b://host/", "HTTP://User@EXAMPLE.com:0080/%7euser/./x/../y?q=%zz#f%41",
-                 "google.com:80", "/foo?bar", "http://b\u00fccher.de/", "http://[::1]\n", "x://A%41/../b"]
+                 "google.com:80", "/foo?bar", "http://b\u00fccher.de/", "http://[::1]\n", "x://A%41/../b",
+                 "http://@", "http://@:", "http://:/x", "http://:80", "http://u@", "http://h:\n/x", "http://h\n"]
         yield from self.chunked("seed", seeds)
         # running time first: cheap, and a deep (escalated) enumeration below may use up the time budget
         for pat in PATHO:
@@ -527,6 +529,8 @@ class C14(Prop):
                      f"parse_url({s!r}).{name} = {v!r} has a character outside the RFC 3986 set / a non-upper-case escape")
 
     def classify_reparse(self, u, u2):
+        # `reparse-mismatch:empty-host` is repaired in util/url.py (an authority made of delimiters
+        # only is reported with host None); the branch stays so that a regression keeps its name
         t, t2 = tup(u), tup(u2)
         if u.host == "" and u2.host is None and t[:2] + t[3:] == t2[:2] + t2[3:] and u.port is None and u.auth is None:
             return "reparse-mismatch:empty-host"
@@ -617,7 +621,10 @@ class C14(Prop):
         if r is not None and sr is not None and "." in sr[0]:
             sig = "rfc-mismatch:dotted-scheme"
         else:
-            # one "\n" at the very end of the authority, swallowed by Python's `$`
+            # one "\n" at the very end of the authority, swallowed by Python's `$` — repaired in
+            # util/url.py (`_HOST_PORT_RE` / `_IPV6_ADDRZ_RE` end in `\Z`); the classifier stays so
+            # that a regression is reported under its name (the finding is listed as fixed, which
+            # suppresses nothing)
             sr2 = ref_scheme_rest(s_use)
             off = len(s_use) - len(sr2[1]) if (sr2 is not None and sr2[1].startswith("//")) else 0
             a_end = off + 2
